@@ -567,6 +567,53 @@ pub fn c15b(ctx: &Ctx, r: &mut Report) {
     qs.push(("WITH t AS (SELECT id FROM users) SELECT id FROM t JOIN orders ON t.id = orders.user_id".into(), vec!["users", "orders"]));
     qs.push(("SELECT id FROM (SELECT id FROM users) AS a JOIN (SELECT id FROM orders) AS b ON a.id = b.id".into(), vec!["users", "orders"]));
     qs.push(("SELECT a.id FROM (SELECT id FROM users) AS a JOIN (SELECT id FROM orders) AS b ON a.id = b.id".into(), vec!["users", "orders"]));
+    // chains of two joins over {users, orders, ref} (aliases a, b, c), each join with ON or USING on every shared
+    // column, selecting every unqualified name that two of the three relations have: a name merged by an earlier
+    // USING must still clash with a same-named column brought by a later join
+    {
+        let cols: [(&'static str, &[(&str, char)]); 3] = [
+            ("users", &[("id", 'i'), ("age", 'i'), ("city", 't')]),
+            ("orders", &[("id", 'i'), ("user_id", 'i'), ("amount", 'f')]),
+            ("ref", &[("city", 't'), ("zone", 'i')]),
+        ];
+        let shared = |x: &[(&str, char)], y: &[(&str, char)]| -> Vec<String> { x.iter().filter(|(n, _)| y.iter().any(|(m, _)| m == n)).map(|(n, _)| n.to_string()).collect() };
+        let on_pair = |x: &[(&str, char)], y: &[(&str, char)]| -> Option<(String, String)> { x.iter().find_map(|(n, k)| y.iter().find(|(_, l)| l == k).map(|(m, _)| (n.to_string(), m.to_string()))) };
+        for (t1, c1) in cols.iter() {
+            for (t2, c2) in cols.iter() {
+                for (t3, c3) in cols.iter() {
+                    let mut j1s: Vec<String> = shared(c1, c2).into_iter().map(|c| format!("USING ({c})")).collect();
+                    if let Some((x, y)) = on_pair(c1, c2) {
+                        j1s.push(format!("ON a.{x} = b.{y}"));
+                    }
+                    let mut j2s: Vec<String> = shared(c1, c3).into_iter().chain(shared(c2, c3)).map(|c| format!("USING ({c})")).collect();
+                    j2s.dedup();
+                    if let Some((x, y)) = on_pair(c1, c3) {
+                        j2s.push(format!("ON a.{x} = c.{y}"));
+                    }
+                    if let Some((x, y)) = on_pair(c2, c3) {
+                        j2s.push(format!("ON b.{x} = c.{y}"));
+                    }
+                    let mut names: Vec<String> = vec![];
+                    for (n, _) in c1.iter().chain(c2.iter()).chain(c3.iter()) {
+                        let count = [c1, c2, c3].iter().filter(|c| c.iter().any(|(m, _)| m == n)).count();
+                        if count >= 2 && !names.contains(&n.to_string()) {
+                            names.push(n.to_string());
+                        }
+                    }
+                    let mut tabs: Vec<&'static str> = vec![*t1, *t2, *t3];
+                    tabs.sort();
+                    tabs.dedup();
+                    for j1 in &j1s {
+                        for j2 in &j2s {
+                            for n in &names {
+                                qs.push((format!("SELECT {n} FROM {t1} a JOIN {t2} b {j1} JOIN {t3} c {j2}"), tabs.clone()));
+                            }
+                        }
+                    }
+                }
+            }
+        }
+    }
     let e = new_engine(&world);
     for (sql, tables) in qs {
         let case_id = "sql-ambiguity";
@@ -580,7 +627,7 @@ pub fn c15b(ctx: &Ctx, r: &mut Report) {
             r.distinct_nontrivial += 1;
             match &outcome {
                 Outcome::Ok(c) => r.violation(
-                    format!("ambiguous-name-bound-silently {}", if sql.contains(" a ") { "self-join" } else if sql.contains("items") || sql.matches("JOIN").count() > 1 { "three-way" } else { "two-way" }),
+                    format!("ambiguous-name-bound-silently {}", if sql.contains(" c ") { if sql.contains("USING") { "chain-with-using" } else { "chain" } } else if sql.contains(" a ") { "self-join" } else if sql.contains("items") || sql.matches("JOIN").count() > 1 { "three-way" } else { "two-way" }),
                     case_id,
                     json!({"query": sql, "sqlite": sqlite.clone().err(), "qrlew_rendered": c.rendered}),
                 ),
